@@ -84,6 +84,10 @@ impl<K: Clone + PartialEq + Eq + Hash + std::fmt::Debug + std::cmp::PartialOrd, 
                 if val.1.is_dirty() {
                     vec.push(val);
                 }
+            } else {
+                // nothing left to evict: more entries are being inserted at the
+                // same time than the cache can hold, so exceed the limit for now
+                break;
             }
         }
 
